@@ -258,6 +258,25 @@ func mapCond(v Value, f func(Value) Value) Value {
 	return res
 }
 
+// mapCondG is mapCond with the guard of each alternative passed to f (for obligations that only
+// concern that alternative).
+func mapCondG(v Value, f func(g *Term, v Value) Value) Value {
+	cv, ok := v.(*CondV)
+	if !ok {
+		return f(True, v)
+	}
+	var res Value
+	for i := len(cv.Alts) - 1; i >= 0; i-- {
+		r := f(cv.Alts[i].C, cv.Alts[i].V)
+		if res == nil {
+			res = r
+		} else {
+			res = mergeValue(cv.Alts[i].C, r, res)
+		}
+	}
+	return res
+}
+
 func mergeState(c *Term, a, b *State) *State {
 	if a == b {
 		return a
